@@ -216,6 +216,9 @@ def call_repo(ex, state, f, args, kwargs):
     contract = ex.reg.contracts.get(addr)
     inline_here = addr in ex.reg.inline or (cur is not None and addr in cur.inline_calls) or ex.spec_mode > 0 \
         or fi.module.startswith("specs")
+    first = self_val if self_val is not None else (args[0] if args else None)
+    if fi.node.name == "__init__" and isinstance(first, VSym):
+        inline_here = True          # base-class constructor of a record under construction
     if contract is not None and not (cur is not None and addr in cur.inline_calls):
         if ex.spec_mode and contract.pure:
             pass
